@@ -5,22 +5,30 @@ tree is a parse tree of the word, and the parser only refuses words outside the 
 -/
 import Pfl.Model.RecDescent
 import Pfl.Props.C15_Trees
+import Pfl.Proofs.RecDescentLemmas
 namespace Pfl
 namespace RecDescent
 open CFG
 
 /-- the pruning test never rejects a sentential form that derives the word -/
 theorem rdMatch_of_derives (G : CFG) (e : List Sym) (w : List String)
-    (h : G.Derives e (w.map Sym.ter)) : rdMatch w e = true := by
-  sorry
+    (h : G.Derives e (w.map Sym.ter)) : rdMatch w e = true :=
+  Lem.rdMatch_of_genList G e w ((genList_iff_derives G e w).mpr h)
 
 theorem parse_valid (G : CFG) (w : List String) (left : Bool) (fuel : Nat) (t : PTree)
-    (h : parse G w left fuel = some (some t)) : G.treeValid t w = true := by
-  sorry
+    (h : parse G w left fuel = some (some t)) : G.treeValid t w = true :=
+  Lem.parse_valid' G w left fuel t h
 
 theorem parse_refuses_only_nonmembers (G : CFG) (w : List String) (left : Bool) (fuel : Nat)
     (h : parse G w left fuel = some none) : ¬ G.Lang w := by
-  sorry
+  rintro ⟨s, hs, hd⟩
+  unfold parse at h
+  rw [hs] at h
+  simp only at h
+  split at h
+  · cases h
+  · next hr => exact Lem.rdSub_refuse G left fuel w _ hr ((genList_iff_derives G _ w).mpr hd)
+  · split at h <;> cases h
 
 end RecDescent
 end Pfl
